@@ -26,8 +26,8 @@ from replicat import exceptions as RX  # noqa: E402
 
 PID = 'C15'
 FULL = [False]
-V = {'a1': b'A-version-one....', 'a2': b'A-version-two-longer......', 'b1': b'B1', 'b2': b'B-two-' * 200}
-FILE_STATES = [('a1', None), ('a1', 'b1'), ('a2', 'b1'), (None, 'b2'), ('a2', 'b2')]
+V = {'a1': b'A-version-one....', 'a2': b'A-version-two-longer......', 'b1': b'B1', 'b2': b'B-two-' * 200, 'a0': b'', 'b0': b''}
+FILE_STATES = [('a1', None), ('a1', 'b1'), ('a2', 'b1'), (None, 'b2'), ('a2', 'b2'), ('a0', None), ('a0', 'b0')]   # a0/b0: empty versions
 SETTINGS = {
     'unenc': W.default_settings(False, chunking={'min_length': 8, 'max_length': 16}, hashing={'name': 'sha2', 'bits': 256}),
     'enc': W.default_settings(True, chunking={'min_length': 8, 'max_length': 16}, hashing={'name': 'blake2b', 'length': 24}),
@@ -261,7 +261,8 @@ def main():
     chk = common.Check(PID, 'model_checking')
     hists = []
     for k in (1, 2, 3):
-        for states in itertools.product(FILE_STATES, repeat=k):
+        menu = FILE_STATES if (k < 3 or t == 'thorough') else [FILE_STATES[i] for i in (0, 2, 3, 5)]
+        for states in itertools.product(menu, repeat=k):
             hists.append(states)
     cases = []
     for kind in ('unenc', 'enc'):
